@@ -199,7 +199,7 @@ mutual
       eraseList (copyKids true K n ks).1 = mergeInto (eraseList K) (eraseList ks)
     | [], K, n, _, _ => by simp [copyKids, eraseList, mergeInto]
     | k :: ks, K, n, hv, hd => by
-      obtain ⟨h1, h2⟩ := validList_cons b k ks hv
+      obtain ⟨h1, h2⟩ := fc_validList_cons b k ks hv
       simp only [copyKids, eraseList, mergeInto]
       rw [erase_copyKids_on b ks _ _ h2 (fun x hx => hd x (by simp [hx])),
         erase_copyInto_on b k K n h1 (hd k (by simp))]
@@ -234,7 +234,7 @@ mutual
       eraseList (copyKids false K n ks).1 = eraseList K ++ eraseList ks
     | [], K, n, _, _ => by simp [copyKids, eraseList]
     | k :: ks, K, n, hv, hd => by
-      obtain ⟨h1, h2⟩ := validList_cons b k ks hv
+      obtain ⟨h1, h2⟩ := fc_validList_cons b k ks hv
       simp only [copyKids, eraseList]
       rw [erase_copyKids_off b ks _ _ h2 (fun x hx => hd x (by simp [hx])),
         erase_copyInto_off b k K n h1 (hd k (by simp))]
